@@ -514,3 +514,161 @@ Proof.
               (nth_map_lt (fun k => nth k ss2 (mkSh false [] [])) p2 _ 0).
 Qed.
 End Models.
+
+(* ------------------------------------------------------------------ *)
+(* symmetric_output: what the mirrored assemblies return, whatever the   *)
+(* block function                                                       *)
+(* ------------------------------------------------------------------ *)
+(* WHY THIS DOES NOT SETTLE PROPERTY C11.  The theorems below say that every entry below
+   the block diagonal is a COPY of the entry above it: the returned matrix is symmetric
+   (Hermitian) across different shells for ANY block function, also for one whose two
+   orientations disagree (block (j,i) <> transpose (block (i,j))), because the block (j,i)
+   is never evaluated.  Symmetry of the returned array therefore carries no information
+   about the block routine; the property's clause "also when the two orientations are
+   computed independently" is decided by the correspondence check (harness/c11.py, part
+   "orient"), which calls construct_array_contraction in both orientations, and by
+   [both_orientations_agree] below at the level of the recursion tables.  Note also that
+   the diagonal blocks are NOT symmetrised: the code writes transpose (block (i,i)) (the
+   tril loop includes the diagonal), so the output is symmetric there only if the block
+   routine's (s,s) block is. *)
+Section SymOut.
+Context {A : Type} (azero : A).
+Definition ent (m : list (list A)) (x y : nat) : A := nth y (nth x m []) azero.
+
+Lemma nth_transpose (m : list (list A)) a b : b < length (hd [] m) -> a < length m ->
+  ent (transpose azero m) b a = ent m a b.
+Proof.
+  intros Hb Ha. unfold ent, transpose. rewrite nth_mk by exact Hb.
+  now rewrite (nth_map_lt _ m a []).
+Qed.
+Lemma transpose_shape (m : list (list A)) R W : 0 < R -> length m = R ->
+  Forall (fun row => length row = W) m ->
+  length (transpose azero m) = W /\ Forall (fun row => length row = R) (transpose azero m).
+Proof.
+  intros HR HL HF. unfold transpose. destruct m as [|row0 m']; [cbn in HL; lia|].
+  cbn [hd]. inversion HF; subst. split; [apply mk_length|].
+  apply Forall_mk. intros c Hc. now rewrite map_length.
+Qed.
+
+(* every x < N is (offset of a block) + (a position inside it) *)
+Lemma off_decompose r n x : x < off r n -> exists i a, i < n /\ a < r i /\ x = off r i + a.
+Proof.
+  induction n as [|n IH]; cbn [off]; intros Hx; [lia|].
+  destruct (Nat.lt_ge_cases x (off r n)) as [Hlt|Hge].
+  - destruct (IH Hlt) as (i & a & Hi & Ha & E). exists i, a. repeat split; auto.
+  - exists n, (x - off r n). repeat split; lia.
+Qed.
+
+Variables (n : nat) (r : nat -> nat) (bf : nat -> nat -> list (list A)).
+Hypothesis Hr : forall i, i < n -> 0 < r i.
+(* only the blocks the code evaluates (i <= j) are constrained *)
+Hypothesis HS : forall i j, i < n -> j < n -> i <= j ->
+  length (bf i j) = r i /\ Forall (fun row => length row = r j) (bf i j).
+
+Lemma hd_len i j : i < n -> j < n -> i <= j -> length (hd [] (bf i j)) = r j.
+Proof. intros Hi Hj Hle. destruct (HS i j Hi Hj Hle) as [HL HF]. pose proof (Hr i Hi).
+  destruct (bf i j) as [|row0 m]; [cbn in HL; lia|]. now inversion HF. Qed.
+
+(* Assembly14.two_symm_blocks_t (base_two_symm.py as written: tril includes the diagonal) *)
+Theorem symm_t_entry i j a b : i < n -> j < n -> a < r i -> b < r j ->
+  ent (two_symm_blocks_t azero n bf) (off r i + a) (off r j + b)
+  = if Nat.ltb i j then ent (bf i j) a b else ent (bf j i) b a.
+Proof.
+  intros Hi Hj Ha Hb. unfold two_symm_blocks_t.
+  change (vcat (mk n (fun i0 => hcat (mk n (fun j0 => if i0 <? j0 then bf i0 j0 else transpose azero (bf j0 i0))))))
+    with (two_asymm_blocks n n (fun i0 j0 => if i0 <? j0 then bf i0 j0 else transpose azero (bf j0 i0))).
+  unfold ent. rewrite (blocks_entry azero n n r r); auto.
+  - destruct (Nat.ltb_spec i j); [reflexivity|].
+    apply nth_transpose; [rewrite hd_len by lia; exact Ha|]. destruct (HS j i Hj Hi ltac:(lia)) as [HL _]. lia.
+  - intros i' j' Hi' Hj'. destruct (Nat.ltb_spec i' j'); [apply HS; lia|].
+    destruct (HS j' i' Hj' Hi' ltac:(lia)) as [HL HF]. now apply (transpose_shape _ (r j') (r i')); auto.
+Qed.
+
+(* the returned matrix is symmetric across DIFFERENT shells, whatever bf *)
+Theorem symmetric_output_offdiag i j a b : i < n -> j < n -> i <> j -> a < r i -> b < r j ->
+  ent (two_symm_blocks_t azero n bf) (off r i + a) (off r j + b)
+  = ent (two_symm_blocks_t azero n bf) (off r j + b) (off r i + a).
+Proof.
+  intros Hi Hj Hne Ha Hb. rewrite !symm_t_entry by assumption.
+  destruct (Nat.ltb_spec i j), (Nat.ltb_spec j i); try lia; reflexivity.
+Qed.
+(* ... and inside one shell it is the TRANSPOSE of what the block routine returned *)
+Theorem symmetric_output_diag i a b : i < n -> a < r i -> b < r i ->
+  ent (two_symm_blocks_t azero n bf) (off r i + a) (off r i + b) = ent (bf i i) b a.
+Proof. intros Hi Ha Hb. rewrite symm_t_entry by assumption. now rewrite Nat.ltb_irrefl. Qed.
+
+(* hence: symmetric as a whole iff (given) the diagonal blocks are *)
+Theorem symmetric_output :
+  (forall i a b, i < n -> a < r i -> b < r i -> ent (bf i i) a b = ent (bf i i) b a) ->
+  forall x y, x < off r n -> y < off r n ->
+  ent (two_symm_blocks_t azero n bf) x y = ent (two_symm_blocks_t azero n bf) y x.
+Proof.
+  intros Hd x y Hx Hy.
+  destruct (off_decompose r n x Hx) as (i & a & Hi & Ha & ->).
+  destruct (off_decompose r n y Hy) as (j & b & Hj & Hb & ->).
+  destruct (Nat.eq_dec i j) as [->|Hne]; [|now apply symmetric_output_offdiag].
+  rewrite !symmetric_output_diag by assumption. now apply Hd.
+Qed.
+
+(* Assembly.two_symm_blocks (used by Overlap.two_symm_integral: diagonal block kept as evaluated) *)
+Theorem symm_entry i j a b : i < n -> j < n -> a < r i -> b < r j ->
+  ent (two_symm_blocks azero n bf) (off r i + a) (off r j + b)
+  = if Nat.leb i j then ent (bf i j) a b else ent (bf j i) b a.
+Proof.
+  intros Hi Hj Ha Hb. unfold two_symm_blocks.
+  change (vcat (mk n (fun i0 => hcat (mk n (fun j0 => if i0 <=? j0 then bf i0 j0 else transpose azero (bf j0 i0))))))
+    with (two_asymm_blocks n n (fun i0 j0 => if i0 <=? j0 then bf i0 j0 else transpose azero (bf j0 i0))).
+  unfold ent. rewrite (blocks_entry azero n n r r); auto.
+  - destruct (Nat.leb_spec i j); [reflexivity|].
+    apply nth_transpose; [rewrite hd_len by lia; exact Ha|]. destruct (HS j i Hj Hi ltac:(lia)) as [HL _]. lia.
+  - intros i' j' Hi' Hj'. destruct (Nat.leb_spec i' j'); [apply HS; lia|].
+    destruct (HS j' i' Hj' Hi' ltac:(lia)) as [HL HF]. now apply (transpose_shape _ (r j') (r i')); auto.
+Qed.
+Theorem symmetric_output_leb_offdiag i j a b : i < n -> j < n -> i <> j -> a < r i -> b < r j ->
+  ent (two_symm_blocks azero n bf) (off r i + a) (off r j + b)
+  = ent (two_symm_blocks azero n bf) (off r j + b) (off r i + a).
+Proof.
+  intros Hi Hj Hne Ha Hb. rewrite !symm_entry by assumption.
+  destruct (Nat.leb_spec i j), (Nat.leb_spec j i); try lia; reflexivity.
+Qed.
+
+(* OneBody.two_symm_blocks_h (momentum type: the model carries the real matrix R of the value
+   -i R; aconj = negation): entries below the block diagonal are the CONJUGATES of the mirrored
+   ones, so R is antisymmetric across different shells, whatever bf; inside one shell the
+   entry is aconj of the transposed evaluated block *)
+Variable aconj : A -> A.
+Theorem symm_h_entry i j a b : i < n -> j < n -> a < r i -> b < r j ->
+  ent (two_symm_blocks_h azero aconj n bf) (off r i + a) (off r j + b)
+  = if Nat.ltb i j then ent (bf i j) a b else aconj (ent (bf j i) b a).
+Proof.
+  intros Hi Hj Ha Hb. unfold two_symm_blocks_h.
+  change (vcat (mk n (fun i0 => hcat (mk n (fun j0 =>
+            if i0 <? j0 then bf i0 j0 else map (map aconj) (transpose azero (bf j0 i0)))))))
+    with (two_asymm_blocks n n (fun i0 j0 =>
+            if i0 <? j0 then bf i0 j0 else map (map aconj) (transpose azero (bf j0 i0)))).
+  unfold ent. rewrite (blocks_entry azero n n r r); auto.
+  - destruct (Nat.ltb_spec i j); [reflexivity|].
+    destruct (HS j i Hj Hi ltac:(lia)) as [HL HF].
+    destruct (transpose_shape (bf j i) (r j) (r i) (Hr j Hj) HL HF) as [HTL HTF].
+    rewrite (nth_map_lt (map aconj) _ a []) by lia.
+    rewrite (nth_map_lt aconj _ b azero).
+    + f_equal. apply nth_transpose; [rewrite hd_len by lia; exact Ha|lia].
+    + rewrite Forall_forall in HTF. rewrite (HTF (nth a (transpose azero (bf j i)) [])); [exact Hb|].
+      apply nth_In. lia.
+  - intros i' j' Hi' Hj'. destruct (Nat.ltb_spec i' j'); [apply HS; lia|].
+    destruct (HS j' i' Hj' Hi' ltac:(lia)) as [HL HF].
+    destruct (transpose_shape (bf j' i') (r j') (r i') (Hr j' Hj') HL HF) as [HTL HTF].
+    split; [now rewrite map_length|]. apply Forall_map. revert HTF. apply Forall_impl. intros row Hrow.
+    now rewrite map_length.
+Qed.
+Theorem hermitian_output_offdiag i j a b : i < n -> j < n -> i < j -> a < r i -> b < r j ->
+  ent (two_symm_blocks_h azero aconj n bf) (off r j + b) (off r i + a)
+  = aconj (ent (two_symm_blocks_h azero aconj n bf) (off r i + a) (off r j + b)).
+Proof.
+  intros Hi Hj Hlt Ha Hb. rewrite !symm_h_entry by assumption.
+  destruct (Nat.ltb_spec i j), (Nat.ltb_spec j i); try lia; reflexivity.
+Qed.
+Theorem hermitian_output_diag i a b : i < n -> a < r i -> b < r i ->
+  ent (two_symm_blocks_h azero aconj n bf) (off r i + a) (off r i + b) = aconj (ent (bf i i) b a).
+Proof. intros Hi Ha Hb. rewrite symm_h_entry by assumption. now rewrite Nat.ltb_irrefl. Qed.
+End SymOut.
